@@ -199,7 +199,7 @@ class C07(Check):
                 c["case"] = "mem/idx/%s" % "x".join(map(str, c["shape"]))
         # the matrix product is dispatched on (type, M, K, N, ISA) to many hand-written kernels: every shape the C01 generator derives from
         # the dispatch model (MatmulDesign: one per route / width stratum / special kernel) is also run flush against the guard pages
-        mcfg = "GenMatmul_%s.cfg" % ctx.tier
+        mcfg = "GenMatmul_quick.cfg"     # the quick shape set in both tiers (thorough adds element types and ISAs)
         mitems, gen, dist, out = tlc_emit(ctx, "GenMatmul", mcfg, env={"VERIF_SEED": str(ctx.seed)})
         if "No error has been found" not in out:
             raise ToolFailure("GenMatmul failed: " + out[-1500:])
@@ -220,7 +220,7 @@ class C07(Check):
                 self.route_cover[isa][r] += 1
         # likewise the triangular product (every tag pair and clip class of the C17 plan, hash-halved) and the 2-D transposes of the C14 plan
         import hashlib
-        tcfg = "GenTmatmul_%s.cfg" % ctx.tier
+        tcfg = "GenTmatmul_quick.cfg"
         titems, gen, dist, out = tlc_emit(ctx, "GenTmatmul", tcfg, env={"VERIF_SEED": str(ctx.seed)}, timeout=1500)
         if "No error has been found" not in out:
             raise ToolFailure("GenTmatmul failed: " + out[-1500:])
@@ -233,7 +233,7 @@ class C07(Check):
                 continue
             have.add(cid)
             items.append({"fam": "own", "op": "tmatmul", "T": m["T"], "M": m["M"], "K": m["K"], "N": m["N"], "lt": m["lt"], "rt": m["rt"], "case": cid})
-        pcfg = "GenPermute_%s.cfg" % ctx.tier
+        pcfg = "GenPermute_quick.cfg"
         pitems, gen, dist, out = tlc_emit(ctx, "GenPermute", pcfg, env={"VERIF_SEED": str(ctx.seed)})
         if "No error has been found" not in out:
             raise ToolFailure("GenPermute failed: " + out[-1500:])
